@@ -300,6 +300,32 @@ struct B12
 };
 static_assert(sizeof(B3) == 3 && sizeof(B12) == 12);
 
+// trivially copyable values whose size is K * sizeof(U): with odd K the size is no power of two, so the end of a span of
+// them is less aligned than min(size, alignment of its start) suggests
+template <class U, size_t K>
+struct Odd
+{
+    U u[K];
+    friend bool operator==(const Odd& l, const Odd& r)
+    {
+        for (size_t i = 0; i < K; ++i)
+            if (!(l.u[i] == r.u[i])) return false;
+        return true;
+    }
+    friend bool operator!=(const Odd& l, const Odd& r) { return !(l == r); }
+    friend bool operator<(const Odd& l, const Odd& r)
+    {
+        for (size_t i = 0; i < K; ++i)
+            if (!(l.u[i] == r.u[i])) return l.u[i] < r.u[i];
+        return false;
+    }
+};
+using B5 = Odd<uint8_t, 5>;
+using B6 = Odd<uint16_t, 3>;
+using B20 = Odd<uint32_t, 5>;
+using B24 = Odd<uint64_t, 3>;
+static_assert(sizeof(B5) == 5 && sizeof(B6) == 6 && sizeof(B20) == 20 && sizeof(B24) == 24 && alignof(B24) == 8);
+
 // trivially copyable, no padding bits, but equality and order are NOT bytewise (values are compared modulo 8):
 // a bytewise fast path widened to such a class type is observable
 struct Mod8
@@ -387,6 +413,25 @@ struct Codec<B3>
 {
     static B3 make(int64_t v) { return B3{{static_cast<uint8_t>(v), static_cast<uint8_t>(v >> 8), static_cast<uint8_t>(v >> 16)}}; }
     static int64_t read(const B3& x) { return x.a[0] | (x.a[1] << 8) | (x.a[2] << 16); }
+    static int64_t moved(int64_t v) { return v; }
+};
+
+template <class U, size_t K>
+struct Codec<Odd<U, K>>
+{
+    static Odd<U, K> make(int64_t v)
+    {
+        Odd<U, K> r;
+        r.u[0] = static_cast<U>(v);
+        for (size_t i = 1; i < K; ++i) r.u[i] = static_cast<U>(static_cast<int64_t>(r.u[0]) * 3 + static_cast<int64_t>(i));
+        return r;
+    }
+    static int64_t read(const Odd<U, K>& x)
+    {
+        for (size_t i = 1; i < K; ++i)
+            if (x.u[i] != static_cast<U>(static_cast<int64_t>(x.u[0]) * 3 + static_cast<int64_t>(i))) return -1000 - static_cast<int64_t>(i);
+        return static_cast<int64_t>(x.u[0]);
+    }
     static int64_t moved(int64_t v) { return v; }
 };
 
@@ -482,6 +527,10 @@ const char* type_name()
     else if constexpr (std::is_same_v<T, B3>) return "B3";
     else if constexpr (std::is_same_v<T, B12>) return "B12";
     else if constexpr (std::is_same_v<T, Mod8>) return "M8";
+    else if constexpr (std::is_same_v<T, B5>) return "B5";
+    else if constexpr (std::is_same_v<T, B6>) return "B6";
+    else if constexpr (std::is_same_v<T, B20>) return "B20";
+    else if constexpr (std::is_same_v<T, B24>) return "B24";
     else if constexpr (std::is_same_v<T, std::string>) return "str";
     else if constexpr (std::is_same_v<T, std::unique_ptr<int>>) return "uptr";
     else if constexpr (IsTracked<T>::value) return std::is_copy_constructible_v<T> ? "Tr" : "TrMv";
